@@ -17,9 +17,29 @@ Definition seen_fails (root : xval) (s : string * string * iobs) : bool :=
   | _, _ => true
   end.
 
+(* "... and as the layer it merges": a top-level key that only ONE merged import defines (no other merged import, nor
+   the importer itself) reaches the importer exactly as that import has it on its own *)
+Definition alone_members (ob : iobs) : list (string * xval) :=
+  match ob with IObs (Some (XObj _ _ m)) _ _ => m | _ => [] end.
+
+Definition is_merged (c : case) (x : string) : bool :=
+  existsb (fun im => String.eqb (fst im) x && snd im) (ed_imports (c_def c)).
+
+Definition layer_fails (c : case) (root : xval) (s : string * string * iobs) : bool :=
+  let '(_, x, alone) := s in
+  is_merged c x
+  && existsb (fun kv =>
+       let k := fst kv in
+       negb (existsb (fun kd => String.eqb (fst kd) k) (ed_values (c_def c)))
+       && negb (existsb (fun s2 => let '(_, x2, alone2) := s2 in
+                          negb (String.eqb x2 x) && is_merged c x2
+                          && existsb (fun kv2 => String.eqb (fst kv2) k) (alone_members alone2)) (c_seen c))
+       && match xget k root with Some a => negb (xeq a (snd kv)) | None => true end)
+     (alone_members alone).
+
 Definition spec_fail (c : case) : bool :=
   match c_obs c with
-  | IObs (Some v) _ _ => existsb (seen_fails v) (c_seen c)
+  | IObs (Some v) _ _ => existsb (seen_fails v) (c_seen c) || existsb (layer_fails c v) (c_seen c)
   | IObs None _ _ => negb (Nat.eqb (length (c_seen c)) 0)
   | ICrash | IPanic => true
   | ILoadErr => false
